@@ -934,6 +934,11 @@ func runCheck(prop, tier string, opt options) int {
 		fmt.Println("REDUCED-COVERAGE:", reduced)
 	}
 	if violations > 0 {
+		for i, s := range inconclusive {
+			if i < 10 {
+				fmt.Println("NOTE (not part of the verdict):", s)
+			}
+		}
 		return 1
 	}
 	if len(inconclusive) > 0 {
